@@ -253,9 +253,10 @@ theorem C18_R1_parsed_code {fs : Files} {la lb : List Str} {pa pb : List Stmt} {
         unfold stmtBytes
         rw [eadd, show t'.pkg.opCode = s4.pkg.opCode by rw [hin]; simp,
           show t'.pkg.postByte = s4.pkg.postByte by rw [hin]; simp]
-      · rintro ⟨_, _, hv, _⟩
-        exfalso
-        rcases hv with ⟨tg, m, hv⟩ | ⟨l, r, op, m, k, hh, mm, nn, hv, _⟩ <;> rw [hv] at hnum <;> cases hnum
+      · rintro (⟨_, _, hv, _⟩ | ⟨_, _, _, hn', _⟩)
+        · exfalso
+          rcases hv with ⟨tg, m, hv⟩ | ⟨l, r, op, m, k, hh, mm, nn, hv, _⟩ <;> rw [hv] at hnum <;> cases hnum
+        · rw [hn] at hn'; cases hn'
   have hfinal : PW (AddrShift D) A.stmts B.stmts := by
     have lA := fA.1
     have lB := fB.1
@@ -272,26 +273,29 @@ theorem C18_R1_parsed_code {fs : Files} {la lb : List Str} {pa pb : List Stmt} {
 /-! ## the third class (`MovedMod`, repair batch B2): `label ± N` with a SIGNED constant, modulo `$10000` -/
 
 /-- the statements that enter `fixAll` in the two programs are equal except for the address, unless they are ORG
-statements (whose operand is a number) -/
+statements (whose operand is a number, and which have no `needsRes`) -/
 theorem reloc_ss4_same {fs : Files} {la lb : List Str} {pa pb : List Stmt} {D : Nat} {P : Nat → Prop} {A B : Assembly}
     (hpa : parseLines la = .ok pa) (hpb : parseLines lb = .ok pb) (hrel : PW (OrgRel D P) pa pb)
     (hinc : ∀ s ∈ pa, s.row.isInclude = false) (stA : Stages fs la A) (stB : Stages fs lb B)
     {i : Nat} {s4 s4' : Stmt} (hs4 : stA.ss4[i]? = some s4) (hs4' : stB.ss4[i]? = some s4')
-    (hnum : s4.operand.value.isNumeric = false) : s4' = s4.setAddress s4'.pkg.address := by
+    (hnum : s4.operand.value.isNumeric = false ∨ s4.pkg.needsRes = true) : s4' = s4.setAddress s4'.pkg.address := by
   obtain ⟨_, h3⟩ := reloc_stages hpa hpb hrel hinc stA stB
   have kA := assignAddrs_keep stA.haddr
   have kB := assignAddrs_keep stB.haddr
   obtain ⟨s3, hs3, ⟨v, hv⟩, _⟩ := kA.get' hs4
   obtain ⟨s3', hs3', ⟨v', hv'⟩, _⟩ := kB.get' hs4'
-  rcases h3.2 i s3 s3' hs3 hs3' with ⟨rfl, _, _⟩ | ⟨_, _, _, _, _, hn, _⟩
+  rcases h3.2 i s3 s3' hs3 hs3' with ⟨rfl, _, _⟩ | ⟨_, _, hres, _, _, hn, _⟩
   · rw [hv, hv']; rfl
   · rw [hv] at hnum
-    rw [show ({ s3 with pkg := { s3.pkg with address := v } } : Stmt).operand = s3.operand from rfl, hn] at hnum
-    cases hnum
+    rw [show ({ s3 with pkg := { s3.pkg with address := v } } : Stmt).operand = s3.operand from rfl, hn,
+      show ({ s3 with pkg := { s3.pkg with address := v } } : Stmt).pkg.needsRes = s3.pkg.needsRes from rfl,
+      hres] at hnum
+    rcases hnum with h | h <;> cases h
 
 /-- C18-R1 for parsed programs, value level, the third class: a statement `label + N` / `label - N` (SIGNED `N`) in a
-four-digit field (`MovedMod`: no bound but acceptance in both layouts) has its operand field, and the last two bytes of
-its code, moved by `D` MODULO `$10000`; the bytes before are identical.  Hypotheses as in `C18_R1_parsed_code`. -/
+four-digit field — as the operand, or (since B3) as constant offset of a pointer register — (`MovedMod`: no bound but
+acceptance in both layouts) has its operand field, and the last two bytes of its code, moved by `D` MODULO `$10000`; the
+bytes before are identical.  Hypotheses as in `C18_R1_parsed_code`. -/
 theorem C18_R1_parsed_code_mod {fs : Files} {la lb : List Str} {pa pb : List Stmt} {D : Nat} {A B : Assembly}
     (hpa : parseLines la = .ok pa) (hpb : parseLines lb = .ok pb) (hrel : PW (OrgRel D (OrgOk D)) pa pb)
     (hinc : ∀ s ∈ pa, s.row.isInclude = false)
@@ -311,9 +315,7 @@ theorem C18_R1_parsed_code_mod {fs : Files} {la lb : List Str} {pa pb : List Stm
   simp only [Nat.zero_add] at hfu hfu'
   rw [ht] at hu; cases hu
   rw [ht'] at hu'; cases hu'
-  have hnum : s4.operand.value.isNumeric = false := by
-    obtain ⟨_, _, _, l, r, op, m, _, _, _, _, hv, _⟩ := hc
-    rw [hv]; rfl
+  have hnum := hc.not_numeric
   have he := reloc_ss4_same hpa hpb hrel hinc stA stB hs4 hs4' hnum
   constructor
   · have hmv := reloc_fixFit_movedMod' hshiftI he hc (i := i)
@@ -322,5 +324,36 @@ theorem C18_R1_parsed_code_mod {fs : Files} {la lb : List Str} {pa pb : List Stm
     rw [hmv]; rfl
   · intro bs hbs
     exact (reloc_bytes_movedMod' hshiftI he hc hfu hfu' hbs).2
+
+/-- C18-R1 for parsed programs, value level, the fourth class (repair batch B3): a statement `number - label`
+(`FDB 5-L`, `LDX #$4000-L`) in a four-digit field (`MovedNeg`) has its operand field, and the last two bytes of its code,
+moved by MINUS `D` modulo `$10000`; the bytes before are identical.  Hypotheses as in `C18_R1_parsed_code`. -/
+theorem C18_R1_parsed_code_neg {fs : Files} {la lb : List Str} {pa pb : List Stmt} {D : Nat} {A B : Assembly}
+    (hpa : parseLines la = .ok pa) (hpb : parseLines lb = .ok pb) (hrel : PW (OrgRel D (OrgOk D)) pa pb)
+    (hinc : ∀ s ∈ pa, s.row.isInclude = false)
+    (hhead : ∃ s0 r0, pa = s0 :: r0 ∧ s0.row.mnemonic = "ORG")
+    (stA : Stages fs la A) (stB : Stages fs lb B) :
+    ∀ (i : Nat) (s4 t t' : Stmt), stA.ss4[i]? = some s4 → A.stmts[i]? = some t → B.stmts[i]? = some t' →
+      MovedNeg stA.ss4 s4 → t'.pkg.additional = shiftVneg D t.pkg.additional ∧
+        ∀ bs, stmtBytes t = some bs →
+          ∃ pre x y, t.pkg.additional.int? = some x ∧ x < 65536 ∧ y < 65536 ∧ (y + D) % 65536 = x ∧
+            bs = pre ++ [x / 256, x % 256] ∧ stmtBytes t' = some (pre ++ [y / 256, y % 256]) := by
+  intro i s4 t t' hs4 ht ht' hc
+  have hshift := (C18_R1_parsed_code hpa hpb hrel hinc hhead stA stB).2.1
+  have hshiftI : PW (AddrShiftI D) stA.ss4 stB.ss4 := hshift.mono (fun _ _ => AddrShift.toI)
+  obtain ⟨s4', hs4', _⟩ := hshift.get hs4
+  obtain ⟨u, hu, hfu⟩ := (fixAll_ok stA.hfix).2 i s4 hs4
+  obtain ⟨u', hu', hfu'⟩ := (fixAll_ok stB.hfix).2 i s4' hs4'
+  simp only [Nat.zero_add] at hfu hfu'
+  rw [ht] at hu; cases hu
+  rw [ht'] at hu'; cases hu'
+  have he := reloc_ss4_same hpa hpb hrel hinc stA stB hs4 hs4' hc.not_numeric
+  constructor
+  · have hmv := reloc_fixFit_movedNeg' hshiftI he hc (i := i)
+    rw [hfu, hfu'] at hmv
+    simp only [Outcome.map_ok, Outcome.ok.injEq] at hmv
+    rw [hmv]; rfl
+  · intro bs hbs
+    exact (reloc_bytes_movedNeg' hshiftI he hc hfu hfu' hbs).2
 
 end CoCo.Props
